@@ -22,7 +22,7 @@ def run_config(prog, cfg):
     nullslot.null_slot_rule(prog, r1, DECODE_SIDE, tab)
     for i in r1.insts:
         i.config = cfg
-    return [r1, r04_5(prog, cfg), r04_6(prog, cfg)]
+    return [r1, r04_2(prog, cfg), r04_5(prog, cfg), r04_6(prog, cfg)]
 
 
 def run(ctx):
@@ -234,6 +234,131 @@ def r04_6(prog, cfg):
                 r.bad(f, key, "`%s` units are appended at the end of the buffer on a path from the definition of `%s` that passes no (re)allocation "
                               "sized with it: the buffer keeps an earlier size and the write runs past it" % (
                                   tree_text(e["args"][ci]["tree"]), bad[0].split("@")[0]), e["line"])
+    for i in r.insts:
+        i.config = cfg
+    return r
+
+
+# ------------------------------------------------------------------------------------------ R04.2
+TABLE_FIELDS = {"elements", "value2enum", "enum2value", "tag2el", "tag2el_cxer", "from_canonical_order", "to_canonical_order",
+                "oms", "tags", "all_tags"}
+
+
+def r04_2(prog, cfg):
+    """Every subscript of a descriptor table (td->elements, specs->value2enum, specs->oms, ...) in code reachable from a
+    decoder, free or print slot, whose index is not a constant and not made of descriptor fields only, is reached only
+    through the bounded edge of an upper-bound comparison of that index (loop condition, range test with a failing
+    exit)."""
+    from ..model import strip_casts, is_var, tree_text, walk, const_of
+    from . import common
+    from .. import guards
+    r = Rule("R04.2", "descriptor tables are indexed only behind an upper-bound comparison of the index", floor=12 if cfg == "default" else 0)
+    cg = prog.callgraph()
+    scope = cg.reachable(common.slot_functions(prog, common.DECODER_SLOTS + ["free_struct", "print_struct", "compare_struct"]))
+    exc = {(x["function"], x["key"]): x["reason"] for x in load_tables("c04").get("r04_2_exceptions", [])}
+    for k in sorted(scope):
+        f = prog.funcs[k]
+        params = {p["id"] for p in f.params}
+        for b, i, e in f.events("subscript"):
+            bt = e["basex"]["tree"]
+            if not ({x[2] for x in walk(bt) if x[0] == "member"} & TABLE_FIELDS):
+                continue
+            if "const" in e["index"]:
+                continue
+            it = strip_casts(e["index"]["tree"])
+            # index made only of descriptor fields (td->tags_count - 1): fixed by the type, not by data
+            ivars = [x for x in walk(it) if x[0] == "var"]
+            if ivars and all(x[2] == "param" and ("asn_TYPE_descriptor" in x[3] or "specifics" in x[3]) for x in ivars) and \
+                    all(x[0] != "member" or True for x in walk(it)):
+                r.ok(f, "%s[%s]" % (tree_text(bt), tree_text(it)), "index is a function of the type descriptor only", e["line"], nontrivial=False)
+                continue
+            # the subject: a local variable, or a member expression like selected.presence_index
+            core = it
+            if isinstance(core, list) and core[0] == "bin" and core[1] in ("-", "+") and const_of(core[3]) is not None:
+                core = strip_casts(core[2])
+            subj_keys = {guards.canon(core)}
+            key = "%s[%s]" % (tree_text(bt), tree_text(it))
+            if is_var(core):
+                # a local that is only ever a copy of another expression (size_t edx = ctx->step): tests of that
+                # expression bound the copy too
+                dts = []
+                for db, di, de in f.events():
+                    if de["k"] == "decl" and de.get("id") == core[1] and "init" in de:
+                        dts.append(de["init"]["tree"])
+                    elif de["k"] == "assign" and de.get("base_id") == core[1] and not de.get("deref") and de.get("lhs") == de.get("base"):
+                        dts.append(de["rhs"]["tree"] if de.get("op") == "=" and "rhs" in de else None)
+                if len(dts) == 1 and dts[0] is not None:
+                    d0 = strip_casts(dts[0])
+                    if isinstance(d0, list) and d0[0] in ("member", "var"):
+                        subj_keys.add(guards.canon(d0))
+            # edges on which an upper bound of the subject is known to hold
+            bounded = set()
+            for tb in f.blocks.values():
+                if not tb.term or "cond" not in tb.term or len(tb.succ) < 2:
+                    continue
+                c = strip_casts(tb.term["cond"]["tree"])
+                if not (isinstance(c, list) and c[0] == "bin" and c[1] in ("<", "<=", ">", ">=")):
+                    continue
+                l, rr = strip_casts(c[2]), strip_casts(c[3])
+                op = c[1]
+                if guards.canon(rr) in subj_keys and guards.canon(l) not in subj_keys:
+                    op = {"<": ">", "<=": ">=", ">": "<", ">=": "<="}[op]
+                elif guards.canon(l) not in subj_keys:
+                    continue
+                bounded.add((tb.id, 0 if op in ("<", "<=") else 1))
+            # definitions of the subject variable (entry for parameters and member subjects)
+            starts = []
+            trusted_defs = set()
+            if is_var(core):
+                vid = core[1]
+                for db, di, de in f.events():
+                    if (de["k"] == "assign" and de.get("base_id") == vid and not de.get("deref") and de.get("lhs") == de.get("base")) or \
+                            (de["k"] == "decl" and de.get("id") == vid):
+                        dtree = (de.get("rhs") or de.get("init") or {}).get("tree")
+                        dt0 = strip_casts(dtree) if dtree is not None else None
+                        # value read out of a descriptor table (from_canonical_order[value]): fixed by the type
+                        if isinstance(dt0, list) and dt0 and dt0[0] == "sub" and ({x[2] for x in walk(dt0[1]) if x[0] == "member"} & TABLE_FIELDS):
+                            trusted_defs.add(db.id)
+                            continue
+                        starts.append(db.id)
+                    elif de["k"] == "call" and any(isinstance(strip_casts(a.get("tree")), list) and strip_casts(a["tree"])[0] == "un" and strip_casts(a["tree"])[1] == "&"
+                                                   and is_var(strip_casts(a["tree"])[2], vid) for a in de.get("args", [])):
+                        starts.append(db.id)
+            if len(subj_keys) > 1:
+                starts = []          # a pure copy of another expression: the bound must hold from the entry on
+            if not starts:
+                starts = [f.entry]
+            # the value was just read out of a descriptor table in this very block
+            last_def_trusted = False
+            if is_var(core):
+                for j in range(i - 1, -1, -1):
+                    de = b.ev[j]
+                    if (de["k"] == "assign" and de.get("base_id") == core[1] and not de.get("deref") and de.get("lhs") == de.get("base")) or \
+                            (de["k"] == "decl" and de.get("id") == core[1]):
+                        dt0 = strip_casts(((de.get("rhs") or de.get("init") or {}).get("tree")))
+                        last_def_trusted = isinstance(dt0, list) and dt0 and dt0[0] == "sub" and bool({x[2] for x in walk(dt0[1]) if x[0] == "member"} & TABLE_FIELDS)
+                        break
+            ok = 1
+            for sb in (set() if last_def_trusted else set(starts)):
+                pth = guards.reach_path(f, sb, b.id, bounded, stop_blocks=(set(starts) | trusted_defs) - {sb})
+                if pth is not None and not (sb == b.id and len(pth) == 1 and False):
+                    # a definition in the same block as the access, before it, with no test in between
+                    ok = None
+                    witness = pth
+                    break
+            if ok is not None:
+                ok = "several" if len(bounded) > 1 else (f.blocks[next(iter(bounded))[0]].term.get("line") if bounded else None)
+                if not bounded and not last_def_trusted:
+                    ok = None
+                if last_def_trusted:
+                    ok = "table"
+            if ok is not None:
+                r.ok(f, key, "reached only through the bounded edge of the comparison at line %s" % ok, e["line"])
+            elif (f.name, key) in exc:
+                r.exc(f, key, exc[(f.name, key)], e["line"])
+            else:
+                r.bad(f, key, "`%s` indexes a descriptor table with `%s`, and no upper-bound comparison of that index guards the access on "
+                              "every path: a value taken from the input (or a corrupted structure) reads past the table" % (tree_text(bt), tree_text(it)), e["line"])
     for i in r.insts:
         i.config = cfg
     return r
